@@ -66,12 +66,16 @@ type Exec struct {
 	Events  []string
 	Viol    *Violation
 	Pruned  bool
-	Obs     string
-	steps   int
-	newStep int
+	// Diverged: the replayed prefix did not fit this execution's menus.
+	Diverged bool
+	Obs      string
+	steps    int
+	newStep  int
 }
 
 type abortExec struct{}
+
+type divergedExec struct{}
 
 // Chooser is handed to the harness body for one execution.
 type Chooser struct {
@@ -98,6 +102,9 @@ func (c *Chooser) choose(p point) int {
 		ch = c.prefix[pos]
 		if ch >= p.n && c.ex.Lenient {
 			ch = p.n - 1
+		}
+		if ch >= p.n && !c.ex.Strict {
+			panic(divergedExec{})
 		}
 		if ch >= p.n {
 			panic(InfraError{fmt.Sprintf("replay divergence at point %d (%s): "+
@@ -243,6 +250,12 @@ type Explorer struct {
 	// or confirmed, and violations of the harness oracles are only
 	// counted, not reported (the schedules are not reproducible).
 	Lenient bool
+	// Strict turns every sign of nondeterminism (a replayed prefix that no
+	// longer fits, a failed determinism audit, a violation that does not
+	// reproduce) into an infrastructure error. The default is to record
+	// it, give up exhaustiveness and go on: such a run can still report
+	// reproducible violations but never an unreproducible one.
+	Strict bool
 
 	body func(c *Chooser)
 
@@ -309,6 +322,7 @@ func FromEnv(harness, config string) *Explorer {
 	}
 	e.ExecCap = int64(envInt("VFX_EXECCAP", 0))
 	e.Lenient = os.Getenv("VFX_LENIENT") != ""
+	e.Strict = os.Getenv("VFX_STRICT") != ""
 	e.Until = Deadline()
 	return e
 }
@@ -357,6 +371,8 @@ func (e *Explorer) RunOne(prefix []int, audit bool) (x *Exec) {
 			if r := recover(); r != nil {
 				switch v := r.(type) {
 				case abortExec:
+				case divergedExec:
+					x.Diverged = true
 				case InfraError:
 					panic(v)
 				default:
@@ -371,6 +387,10 @@ func (e *Explorer) RunOne(prefix []int, audit bool) (x *Exec) {
 		}()
 		e.body(c)
 	}()
+	if len(x.Choices) < len(prefix) && !x.Pruned && x.Viol == nil && !e.Lenient && !e.Strict {
+		x.Diverged = true
+		return x
+	}
 	if len(x.Choices) < len(prefix) && !x.Pruned && x.Viol == nil && !e.Lenient {
 		panic(InfraError{fmt.Sprintf("replay divergence: execution ended after "+
 			"%d choices but prefix has %d: %v", len(x.Choices), len(prefix), prefix)})
@@ -531,6 +551,10 @@ func (e *Explorer) runBound() bool {
 		e.noteCurrent(prefix)
 		x := e.RunOne(prefix, false)
 		e.Res.Executions++
+		if x.Diverged {
+			e.noteFlaky("replay_divergences", "a schedule prefix did not replay identically (subtree skipped)")
+			continue
+		}
 		owned := e.owner(x.Choices) == e.Shard
 		if owned {
 			e.account(x)
@@ -582,6 +606,25 @@ func (e *Explorer) noteCurrent(prefix []int) {
 	_ = os.WriteFile(p, b, 0o644)
 }
 
+// noteFlaky records a sign of nondeterminism: the run stays usable but is no
+// longer exhaustive.
+func (e *Explorer) noteFlaky(key, what string) {
+	r := &e.Res
+	if r.Extra == nil {
+		r.Extra = map[string]int64{}
+	}
+	r.Extra[key]++
+	r.Exhaustive = false
+	for _, c := range r.Caps {
+		if c == what {
+			return
+		}
+	}
+	if len(r.Caps) < 16 {
+		r.Caps = append(r.Caps, what)
+	}
+}
+
 func (e *Explorer) account(x *Exec) {
 	r := &e.Res
 	r.Owned++
@@ -625,7 +668,9 @@ func (e *Explorer) account(x *Exec) {
 	if e.AuditEvery > 0 && n%e.AuditEvery == 1 && x.Viol == nil {
 		y := e.RunOne(x.Choices, true)
 		r.Audits++
-		if !auditOK(x, y) {
+		if !auditOK(x, y) && !e.Strict {
+			e.noteFlaky("determinism_audit_mismatches", "a determinism audit (same choices run twice) gave different event logs")
+		} else if !auditOK(x, y) {
 			panic(InfraError{fmt.Sprintf("NONDETERMINISM: replaying %v gave "+
 				"different events/observation\nfirst:  %v | %s\nsecond: %v | %s",
 				x.Choices, x.Events, x.Obs, y.Events, y.Obs)})
@@ -657,6 +702,11 @@ func (e *Explorer) account(x *Exec) {
 				got := "no violation"
 				if y.Viol != nil {
 					got = y.Viol.Clause + "|" + y.Viol.Sig + "|" + y.Viol.Detail
+				}
+				if !e.Strict {
+					e.noteFlaky("unconfirmed_violations", fmt.Sprintf("a violation (%s|%s) did not reproduce when its schedule was re-run and is not reported", v.Clause, v.Sig))
+					e.sig[v.Clause+"|"+v.Sig] = true
+					return
 				}
 				panic(InfraError{fmt.Sprintf("NONDETERMINISM: violation %s|%s "+
 					"(%s) at %v did not reproduce on re-run %d: got %s",
